@@ -74,14 +74,18 @@ void AppendDomain(util::Serializer &dump, const std::string domain)
     dump << uint8_t(0);
 }
 
+const int kMaxCompressDepth = 16;   //!< 压缩指针最大跳转次数，防止恶意构造的循环指针
+
 /// 从缓冲中提取domain，与AppendDomain()相反
-std::string FetchDomain(util::Deserializer &parser)
+/// 数据不完整或压缩指针跳转过多时返回false
+bool FetchDomain(util::Deserializer &parser, std::string &domain, int depth = 0)
 {
     std::ostringstream oss;
     bool first = true;
     for (;;) {
         uint8_t len = 0;
-        parser >> len;
+        if (!parser.fetch(len))
+            return false;
         if (len == 0)
             break;
 
@@ -92,20 +96,25 @@ std::string FetchDomain(util::Deserializer &parser)
         //! 处理压缩的字串
         if ((len & 0xc0) == 0xc0) {
             uint8_t offset_low = 0;
-            parser >> offset_low;
+            if (!parser.fetch(offset_low) || depth >= kMaxCompressDepth)
+                return false;
             uint16_t offset = (len & 0x3f) << 8 | offset_low;
             util::Deserializer sub_parser(parser);
-            sub_parser.set_pos(offset);
-            oss << FetchDomain(sub_parser);
+            std::string sub_domain;
+            if (!sub_parser.set_pos(offset) || !FetchDomain(sub_parser, sub_domain, depth + 1))
+                return false;
+            oss << sub_domain;
             break;
         } else {
             char str[len + 1];
-            parser.fetch(str, len);
+            if (!parser.fetch(str, len))
+                return false;
             str[len] = '\0';
             oss << str;
         }
     }
-    return oss.str();
+    domain = oss.str();
+    return true;
 }
 
 }
@@ -214,8 +223,9 @@ void DnsRequest::onUdpRecv(const void *data_ptr, size_t data_size, const SockAdd
     RECORD_SCOPE();
     util::Deserializer parser(data_ptr, data_size);
 
-    uint16_t req_id, flags;
-    parser >> req_id >> flags;
+    uint16_t req_id = 0, flags = 0;
+    if (!parser.fetch(req_id) || !parser.fetch(flags))
+        return;
 
     Request *req = findRequest(req_id);
     if (req == nullptr)
@@ -230,47 +240,62 @@ void DnsRequest::onUdpRecv(const void *data_ptr, size_t data_size, const SockAdd
     Result result;
 
     if (rcode == 0) {   //! 正常
-        uint16_t qd_count, an_count, ns_count, ar_count;
-        parser >> qd_count >> an_count >> ns_count >> ar_count;
+        uint16_t qd_count = 0, an_count = 0, ns_count = 0, ar_count = 0;
+        bool is_ok = parser.fetch(qd_count) && parser.fetch(an_count) &&
+                     parser.fetch(ns_count) && parser.fetch(ar_count);
 
 #if 0
         LogTrace("id:%d, flags:%04x, qd_count:%d, an_count:%d, ns_count:%d, ar_count:%d",
                id, flags, qd_count, an_count, an_count, ns_count, ar_count);
 #endif
 
+        std::string domain;
         //! 解析Question字段
-        for (uint16_t i = 0; i < qd_count; ++i) {
-            FetchDomain(parser);
-            uint16_t dns_type, dns_class;
-            parser >> dns_type >> dns_class;
+        for (uint16_t i = 0; is_ok && i < qd_count; ++i) {
+            uint16_t dns_type = 0, dns_class = 0;
+            is_ok = FetchDomain(parser, domain) &&
+                    parser.fetch(dns_type) && parser.fetch(dns_class);
         }
 
-        for (uint16_t i = 0; i < an_count; ++i) {
-            FetchDomain(parser);
-            uint16_t an_type, an_class, an_len;
-            uint32_t an_ttl;
-            parser >> an_type >> an_class >> an_ttl >> an_len;
+        for (uint16_t i = 0; is_ok && i < an_count; ++i) {
+            uint16_t an_type = 0, an_class = 0, an_len = 0;
+            uint32_t an_ttl = 0;
+            is_ok = FetchDomain(parser, domain) &&
+                    parser.fetch(an_type) && parser.fetch(an_class) &&
+                    parser.fetch(an_ttl) && parser.fetch(an_len);
+            if (!is_ok)
+                break;
 
 #if 0
             LogTrace("type:%d, class:%d, ttl:%d, len:%d", an_type, an_class, an_ttl, an_len);
 #endif
             if (an_type == DNS_TYPE_A) {
-                uint32_t ip_value;
+                uint32_t ip_value = 0;
                 auto old_endian = parser.setEndian(util::Endian::kLittle);
-                parser >> ip_value;
+                is_ok = parser.fetch(ip_value);
                 parser.setEndian(old_endian);
-                A a = { an_ttl, IPAddress(ip_value) };
-                result.a_vec.push_back(a);
+                if (is_ok) {
+                    A a = { an_ttl, IPAddress(ip_value) };
+                    result.a_vec.push_back(a);
+                }
 
             } else if (an_type == DNS_TYPE_CNAME) {
-                std::string domain = FetchDomain(parser);
-                CNAME cname = { an_ttl, DomainName(domain) };
-                result.cname_vec.push_back(cname);
+                is_ok = FetchDomain(parser, domain);
+                if (is_ok) {
+                    CNAME cname = { an_ttl, DomainName(domain) };
+                    result.cname_vec.push_back(cname);
+                }
 
             } else {
                 LogNotice("unknow type:%d", an_type);
-                parser.skip(an_len);
+                is_ok = parser.skip(an_len);
             }
+        }
+
+        //! 数据包不完整或格式有误，丢弃。等其它服务器的回复或超时
+        if (!is_ok) {
+            LogNotice("dns packet error, from:%s", from.toString().c_str());
+            return;
         }
     } else {
         //! 出现异常
